@@ -206,12 +206,17 @@ class Check:
         env.setdefault("GOMEMLIMIT", "8GiB")
         try:
             rc, out = sh(cmd, env=env, timeout=timeout)
+            if rc < 0 and not out.strip():
+                # killed by a signal from outside without having said anything (e.g. the kernel's OOM killer under load):
+                # not something the code under test did; run it once more before drawing any conclusion
+                self.cov["harness_rerun_after_signal"] = self.cov.get("harness_rerun_after_signal", 0) + 1
+                rc, out = sh(cmd, env=env, timeout=timeout)
         except subprocess.TimeoutExpired:
             self.problems.append(Problem("tie", f"harness did not finish within {timeout}s (the implementation hangs or loops on some input)",
                                          [" ".join(cmd)], "timeout"))
             return None
         if rc != 0:
-            self.problems.append(Problem("tie", "harness crashed", [" ".join(cmd)], out[-4000:]))
+            self.problems.append(Problem("tie", f"harness crashed (exit status {rc})", [" ".join(cmd)], out[-4000:]))
             return None
         st = {}
         try:
